@@ -17,11 +17,12 @@ CONSTANTS MaxNodes, MaxRels,
           Hist,             \* TRUE: C02 histories (mutators + physical steps)
           MaxHist,
           AskAt,            \* the query is asked once the history has at least this many steps
+          Tier,             \* "single": bounds / family from the constants above; "quick" / "thorough": the tables below
           Sim,              \* TRUE for -simulate: one random query of the family per walk, script printed by the End step
           Dev               \* deviations enabled in the design-level laws (self-test)
 
-VARIABLES G, q, hist
-vars == <<G, q, hist>>
+VARIABLES G, q, hist, fc          \* fc: the family configuration this behaviour explores (fixed at Init)
+vars == <<G, q, hist, fc>>
 NoQ == [parts |-> <<>>, all |-> FALSE]
 
 ValSet(name) ==
@@ -333,30 +334,87 @@ FamMix == {Q1(<<m>> \o s2 \o <<r>>) : m \in MixFirst, s2 \in MixSecond, r \in Mi
 FamAll == FamScanL \cup FamScanW1 \cup FamScanW2 \cup FamScanI \cup FamHopD \cup FamHopP \cup FamAgg \cup FamAggHop \cup FamOpt
           \cup FamOrd \cup FamOrd2 \cup FamWith \cup FamWithHop \cup FamUnwind \cup FamUnion \cup FamVar \cup FamShort
 
-Fam ==
-    CASE Family = "scanL" -> FamScanL
-      [] Family = "scanW1" -> FamScanW1
-      [] Family = "scanW2" -> FamScanW2
-      [] Family = "scanI" -> FamScanI
-      [] Family = "hopD" -> FamHopD
-      [] Family = "hopP" -> FamHopP
-      [] Family = "agg" -> FamAgg
-      [] Family = "sum" -> FamSum
-      [] Family = "aggHop" -> FamAggHop
-      [] Family = "opt" -> FamOpt
-      [] Family = "ord" -> FamOrd
-      [] Family = "ord2" -> FamOrd2
-      [] Family = "with" -> FamWith
-      [] Family = "withHop" -> FamWithHop
-      [] Family = "unwind" -> FamUnwind
-      [] Family = "union" -> FamUnion
-      [] Family = "var" -> FamVar
-      [] Family = "short" -> FamShort
-      [] Family = "mix" -> FamMix
-      [] Family = "all" -> FamAll
+FamOf(fm) ==
+    CASE fm = "scanL" -> FamScanL
+      [] fm = "scanW1" -> FamScanW1
+      [] fm = "scanW2" -> FamScanW2
+      [] fm = "scanI" -> FamScanI
+      [] fm = "hopD" -> FamHopD
+      [] fm = "hopP" -> FamHopP
+      [] fm = "agg" -> FamAgg
+      [] fm = "sum" -> FamSum
+      [] fm = "aggHop" -> FamAggHop
+      [] fm = "opt" -> FamOpt
+      [] fm = "ord" -> FamOrd
+      [] fm = "ord2" -> FamOrd2
+      [] fm = "with" -> FamWith
+      [] fm = "withHop" -> FamWithHop
+      [] fm = "unwind" -> FamUnwind
+      [] fm = "union" -> FamUnion
+      [] fm = "var" -> FamVar
+      [] fm = "short" -> FamShort
+      [] fm = "mix" -> FamMix
+      [] fm = "all" -> FamAll
+
+\* ------------------------------------------------------------------ family tables (one TLC run enumerates all of them)
+L0 == {{}}
+LA == {{}, {"A"}}
+LOA == {{"A"}}
+L4 == {{}, {"A"}, {"B"}, {"A", "B"}}
+FC(name, fam, maxn, maxr, labels, p, qq, r, types) ==
+    [name |-> name, fam |-> fam, maxn |-> maxn, maxr |-> maxr, labels |-> labels, p |-> p, q |-> qq, r |-> r, types |-> types]
+\* quick: every graph with <= 2 nodes / <= 2 relationships over the value sets named, per clause family
+QuickTable ==
+    {FC("scanL", "scanL", 2, 0, L4, "none", "none", "none", {"T"}),
+     FC("scanW1", "scanW1", 2, 0, LOA, "mixed", "none", "none", {"T"}),
+     FC("scanW2", "scanW2", 2, 0, L0, "num", "one", "none", {"T"}),
+     FC("scanI", "scanI", 2, 0, LOA, "mixed", "none", "none", {"T"}),
+     FC("hopD", "hopD", 2, 2, L0, "none", "none", "none", {"T"}),
+     FC("hopD2", "hopD", 2, 1, L0, "none", "none", "none", {"T", "U"}),
+     FC("hopP", "hopP", 2, 1, LA, "one", "none", "one", {"T"}),
+     FC("agg", "agg", 2, 0, L0, "num", "one", "none", {"T"}),
+     FC("aggM", "agg", 2, 0, L0, "mixed", "none", "none", {"T"}),
+     FC("sum", "sum", 2, 0, LA, "num", "one", "none", {"T"}),
+     FC("aggHop", "aggHop", 2, 2, L0, "none", "none", "none", {"T"}),
+     FC("opt", "opt", 2, 1, LA, "one", "none", "none", {"T"}),
+     FC("ord", "ord", 2, 0, L0, "mixed", "none", "none", {"T"}),
+     FC("ord2", "ord2", 2, 1, L0, "two", "one", "none", {"T"}),
+     FC("with", "with", 2, 0, LA, "num", "none", "none", {"T"}),
+     FC("withHop", "withHop", 2, 1, LA, "one", "none", "none", {"T"}),
+     FC("unwind", "unwind", 1, 0, LA, "num", "none", "none", {"T"}),
+     FC("union", "union", 2, 0, LA, "num", "none", "none", {"T"}),
+     FC("var", "var", 2, 2, L0, "none", "none", "none", {"T"}),
+     FC("short", "short", 2, 2, L0, "none", "none", "none", {"T"})}
+\* thorough: the value sets / multi-edges the quick tier trims, and three-node graphs for the pattern families
+ThoroughTable ==
+    {FC("scanL", "scanL", 2, 0, L4, "one", "none", "none", {"T"}),
+     FC("scanW1", "scanW1", 2, 0, LA, "mixed", "none", "none", {"T"}),
+     FC("scanW2", "scanW2", 2, 0, L0, "mixed", "one", "none", {"T"}),
+     FC("scanI", "scanI", 2, 0, LA, "mixed", "none", "none", {"T"}),
+     FC("hopD", "hopD", 2, 2, L0, "none", "none", "none", {"T", "U"}),
+     FC("hopD3", "hopD", 3, 2, L0, "none", "none", "none", {"T"}),
+     FC("hopP", "hopP", 2, 2, LA, "one", "none", "one", {"T"}),
+     FC("agg", "agg", 2, 0, L0, "mixed", "one", "none", {"T"}),
+     FC("agg3", "agg", 3, 0, L0, "num", "none", "none", {"T"}),
+     FC("sum", "sum", 2, 0, LA, "num", "one", "none", {"T"}),
+     FC("aggHop", "aggHop", 2, 2, L0, "none", "none", "one", {"T"}),
+     FC("opt", "opt", 2, 2, LA, "one", "none", "one", {"T"}),
+     FC("ord", "ord", 2, 0, LA, "mixed", "none", "none", {"T"}),
+     FC("ord3", "ord", 3, 0, L0, "num", "none", "none", {"T"}),
+     FC("ord2", "ord2", 2, 1, L0, "num", "one", "none", {"T"}),
+     FC("with", "with", 2, 0, LA, "mixed", "none", "none", {"T"}),
+     FC("withHop", "withHop", 2, 2, LA, "one", "none", "none", {"T"}),
+     FC("unwind", "unwind", 1, 0, LA, "mixed", "none", "none", {"T"}),
+     FC("union", "union", 2, 0, LA, "num", "one", "none", {"T"}),
+     FC("var", "var", 2, 2, LA, "none", "none", "none", {"T"}),
+     FC("var3", "var", 3, 3, L0, "none", "none", "none", {"T"}),
+     FC("short", "short", 3, 3, L0, "none", "none", "none", {"T"})}
+SingleCfg == FC(Family, Family, MaxNodes, MaxRels, LabelSets, PSet, QSet, RSet, Types)
+Table == IF Tier = "quick" THEN QuickTable ELSE IF Tier = "thorough" THEN ThoroughTable ELSE {SingleCfg}
+Fam == FamOf(Family)        \* single mode (zero-arity: evaluated once, which matters for the random walks)
 
 \* ------------------------------------------------------------------ graph building
-Init == G = EmptyGraph /\ q = NoQ /\ hist = <<>>
+Init == G = EmptyGraph /\ q = NoQ /\ hist = <<>> /\ fc \in Table
 H(r) == hist' = Append(hist, r)
 Asked == q # NoQ
 \* symmetry cut: a total preorder on step records by their JSON text is not available; compare descriptors
@@ -365,59 +423,59 @@ RECURSIVE LexLe(_, _)
 LexLe(a, b) == IF a = <<>> THEN TRUE ELSE IF Head(a) # Head(b) THEN Head(a) < Head(b) ELSE LexLe(Tail(a), Tail(b))
 RelDesc(r) == <<r.s, r.d, IF r.t = "T" THEN 0 ELSE 1, KindRank(r.props.p), Num2(r.props.p)>>
 DoAddNode ==
-    /\ ~Asked /\ Len(G.nodes) < MaxNodes /\ G.rels = <<>>
-    /\ \E ls \in LabelSets, p \in ValSet(PSet), qq \in ValSet(QSet) :
+    /\ ~Asked /\ Len(G.nodes) < fc.maxn /\ G.rels = <<>>
+    /\ \E ls \in fc.labels, p \in ValSet(fc.p), qq \in ValSet(fc.q) :
           /\ Canon /\ G.nodes # <<>> => LexLe(NodeDesc(G.nodes[Len(G.nodes)]), NodeDesc(NodeRec(ls, p, qq)))
           /\ G' = AddNode(G, ls, p, qq)
           /\ H([op |-> "CreateNode", labels |-> LabSeq(ls), p |-> p, q |-> qq])
-    /\ UNCHANGED q
+    /\ UNCHANGED <<q, fc>>
 DoAddRel ==
-    /\ ~Asked /\ Len(G.rels) < MaxRels
-    /\ \E s \in DOMAIN G.nodes, d \in DOMAIN G.nodes, t \in Types, p \in ValSet(RSet) :
+    /\ ~Asked /\ Len(G.rels) < fc.maxr
+    /\ \E s \in DOMAIN G.nodes, d \in DOMAIN G.nodes, t \in fc.types, p \in ValSet(fc.r) :
           /\ Canon /\ G.rels # <<>> => LexLe(RelDesc(G.rels[Len(G.rels)]), RelDesc(RelRec(s, d, t, p)))
           /\ G' = AddRel(G, s, d, t, p)
           /\ H([op |-> "CreateRel", s |-> s, d |-> d, t |-> t, p |-> p])
-    /\ UNCHANGED q
+    /\ UNCHANGED <<q, fc>>
 \* ---- C02 histories: mutators of the logical graph and physical steps, in any order
 HistOn == Hist /\ ~Asked
-DoDelNode == HistOn /\ \E h \in LiveN(G) : G' = DelNode(G, h) /\ H([op |-> "DeleteNode", n |-> h]) /\ UNCHANGED q
-DoDelRel == HistOn /\ \E r \in LiveR(G) : G' = DelRel(G, r) /\ H([op |-> "DeleteRel", r |-> r]) /\ UNCHANGED q
+DoDelNode == HistOn /\ \E h \in LiveN(G) : G' = DelNode(G, h) /\ H([op |-> "DeleteNode", n |-> h]) /\ UNCHANGED <<q, fc>>
+DoDelRel == HistOn /\ \E r \in LiveR(G) : G' = DelRel(G, r) /\ H([op |-> "DeleteRel", r |-> r]) /\ UNCHANGED <<q, fc>>
 DoSetNodeProp ==
-    HistOn /\ \E h \in LiveN(G), v \in ValSet(PSet) \ {VNull} :
+    HistOn /\ \E h \in LiveN(G), v \in ValSet(fc.p) \ {VNull} :
         /\ G.nodes[h].props.p # v
-        /\ G' = [G EXCEPT !.nodes[h].props.p = v] /\ H([op |-> "SetNodeProp", n |-> h, key |-> "p", v |-> v]) /\ UNCHANGED q
+        /\ G' = [G EXCEPT !.nodes[h].props.p = v] /\ H([op |-> "SetNodeProp", n |-> h, key |-> "p", v |-> v]) /\ UNCHANGED <<q, fc>>
 DoRemoveNodeProp ==
     HistOn /\ \E h \in LiveN(G) :
         /\ G.nodes[h].props.p # VNull
-        /\ G' = [G EXCEPT !.nodes[h].props.p = VNull] /\ H([op |-> "RemoveNodeProp", n |-> h, key |-> "p"]) /\ UNCHANGED q
+        /\ G' = [G EXCEPT !.nodes[h].props.p = VNull] /\ H([op |-> "RemoveNodeProp", n |-> h, key |-> "p"]) /\ UNCHANGED <<q, fc>>
 DoSetRelProp ==
-    HistOn /\ \E r \in LiveR(G), v \in ValSet(RSet) \ {VNull} :
+    HistOn /\ \E r \in LiveR(G), v \in ValSet(fc.r) \ {VNull} :
         /\ G.rels[r].props.p # v
-        /\ G' = [G EXCEPT !.rels[r].props.p = v] /\ H([op |-> "SetRelProp", r |-> r, v |-> v]) /\ UNCHANGED q
+        /\ G' = [G EXCEPT !.rels[r].props.p = v] /\ H([op |-> "SetRelProp", r |-> r, v |-> v]) /\ UNCHANGED <<q, fc>>
 DoAddLabel ==
     HistOn /\ \E h \in LiveN(G), lb \in {"A", "B"} :
-        /\ lb \notin G.nodes[h].labels /\ (G.nodes[h].labels \cup {lb}) \in LabelSets
-        /\ G' = [G EXCEPT !.nodes[h].labels = @ \cup {lb}] /\ H([op |-> "AddLabel", n |-> h, label |-> lb]) /\ UNCHANGED q
+        /\ lb \notin G.nodes[h].labels /\ (G.nodes[h].labels \cup {lb}) \in fc.labels
+        /\ G' = [G EXCEPT !.nodes[h].labels = @ \cup {lb}] /\ H([op |-> "AddLabel", n |-> h, label |-> lb]) /\ UNCHANGED <<q, fc>>
 DoRemoveLabel ==
     HistOn /\ \E h \in LiveN(G), lb \in {"A", "B"} :
-        /\ lb \in G.nodes[h].labels /\ (G.nodes[h].labels \ {lb}) \in LabelSets
-        /\ G' = [G EXCEPT !.nodes[h].labels = @ \ {lb}] /\ H([op |-> "RemoveLabel", n |-> h, label |-> lb]) /\ UNCHANGED q
+        /\ lb \in G.nodes[h].labels /\ (G.nodes[h].labels \ {lb}) \in fc.labels
+        /\ G' = [G EXCEPT !.nodes[h].labels = @ \ {lb}] /\ H([op |-> "RemoveLabel", n |-> h, label |-> lb]) /\ UNCHANGED <<q, fc>>
 \* physical steps (no logical effect; at most two of each per history, never twice in a row)
 Count(op) == Cardinality({i \in DOMAIN hist : hist[i].op = op})
 LastOp == IF hist = <<>> THEN "" ELSE hist[Len(hist)].op
-DoCompact == HistOn /\ Count("Compact") < 2 /\ LastOp # "Compact" /\ H([op |-> "Compact"]) /\ UNCHANGED <<G, q>>
-DoCreateIndex == HistOn /\ Count("CreateIndex") < 1 /\ H([op |-> "CreateIndex"]) /\ UNCHANGED <<G, q>>
+DoCompact == HistOn /\ Count("Compact") < 2 /\ LastOp # "Compact" /\ H([op |-> "Compact"]) /\ UNCHANGED <<G, q, fc>>
+DoCreateIndex == HistOn /\ Count("CreateIndex") < 1 /\ H([op |-> "CreateIndex"]) /\ UNCHANGED <<G, q, fc>>
 \* histories add nodes / relationships in any order (no symmetry cut, relationships before further nodes allowed)
 DoAddNodeH ==
-    /\ HistOn /\ Len(G.nodes) < MaxNodes
-    /\ \E ls \in LabelSets, p \in ValSet(PSet), qq \in ValSet(QSet) :
+    /\ HistOn /\ Len(G.nodes) < fc.maxn
+    /\ \E ls \in fc.labels, p \in ValSet(fc.p), qq \in ValSet(fc.q) :
           G' = AddNode(G, ls, p, qq) /\ H([op |-> "CreateNode", labels |-> LabSeq(ls), p |-> p, q |-> qq])
-    /\ UNCHANGED q
+    /\ UNCHANGED <<q, fc>>
 DoAddRelH ==
-    /\ HistOn /\ Len(G.rels) < MaxRels
-    /\ \E s \in LiveN(G), d \in LiveN(G), t \in Types, p \in ValSet(RSet) :
+    /\ HistOn /\ Len(G.rels) < fc.maxr
+    /\ \E s \in LiveN(G), d \in LiveN(G), t \in fc.types, p \in ValSet(fc.r) :
           G' = AddRel(G, s, d, t, p) /\ H([op |-> "CreateRel", s |-> s, d |-> d, t |-> t, p |-> p])
-    /\ UNCHANGED q
+    /\ UNCHANGED <<q, fc>>
 
 \* one connected MATCH, plain RETURN: the answer on k disjoint copies of the graph is k times the answer on one
 Linear(x) ==
@@ -428,18 +486,18 @@ Linear(x) ==
        /\ \A i \in DOMAIN cs[2].items : ~IsAgg(cs[2].items[i].e)
 Ask ==
     /\ ~Asked /\ G.nodes # <<>> /\ Len(hist) >= AskAt
-    /\ \E x \in (IF Sim THEN {RandomElement(Fam)} ELSE Fam) :
-          q' = x /\ H(IF Hist THEN [op |-> "Query", q |-> x, lin |-> Linear(x)] ELSE [op |-> "Query", q |-> x])
-    /\ UNCHANGED G
+    /\ \E x \in (IF Sim THEN {RandomElement(Fam)} ELSE FamOf(fc.fam)) :
+          q' = x /\ H(IF Hist THEN [op |-> "Query", q |-> x, lin |-> Linear(x), fam |-> fc.name] ELSE [op |-> "Query", q |-> x, fam |-> fc.name])
+    /\ UNCHANGED <<G, fc>>
 \* simulation only: TLC evaluates invariants on every candidate successor, so the script is printed one step later,
 \* from the successor of the state the walk really chose
-End == Sim /\ Asked /\ hist[Len(hist)].op = "Query" /\ H([op |-> "End"]) /\ UNCHANGED <<G, q>>
+End == Sim /\ Asked /\ hist[Len(hist)].op = "Query" /\ H([op |-> "End"]) /\ UNCHANGED <<G, q, fc>>
 Next == \/ (~Hist /\ (DoAddNode \/ DoAddRel)) \/ Ask \/ End
         \/ DoAddNodeH \/ DoAddRelH \/ DoDelNode \/ DoDelRel \/ DoSetNodeProp \/ DoRemoveNodeProp \/ DoSetRelProp
         \/ DoAddLabel \/ DoRemoveLabel \/ DoCompact \/ DoCreateIndex
 Spec == Init /\ [][Next]_vars
 
-View == <<G, q, IF Hist THEN [i \in DOMAIN hist |-> hist[i].op \in {"Compact", "CreateIndex", "DeleteNode", "DeleteRel"}] ELSE <<>>>>
+View == <<G, q, fc.name, IF Hist THEN [i \in DOMAIN hist |-> hist[i].op \in {"Compact", "CreateIndex", "DeleteNode", "DeleteRel"}] ELSE <<>>>>
 Bound == Len(hist) <= MaxHist
 EmitAsk == (q' # NoQ) => PrintT(<<"SCRIPT", ToJson(hist')>>)
 SimEmit == (hist # <<>> /\ hist[Len(hist)].op = "End") => PrintT(<<"SCRIPT", ToJson(SubSeq(hist, 1, Len(hist) - 1))>>)
